@@ -16,7 +16,7 @@ use std::{
 };
 
 use rand::Rng;
-use rand_chacha::ChaCha8Rng;
+use crate::kit::SimRng as ChaCha8Rng;
 use zksync_concurrency::{ctx, time};
 
 use crate::{
@@ -233,6 +233,7 @@ pub fn finish<E>(
             harness_error,
             summary,
             replay: None,
+            draws: Default::default(),
         },
         h.log.lines(),
     )
@@ -240,7 +241,11 @@ pub fn finish<E>(
 
 /// Runs one primitive scenario by name.
 pub fn run_case(mode: &str, seed: u64, keep_log: bool) -> (CaseResult, Vec<String>) {
-    crate::kit::entropy::isolated(seed, || run_case_inner(mode, seed, keep_log))
+    crate::kit::entropy::isolated(seed, || {
+        let (mut r, log) = run_case_inner(mode, seed, keep_log);
+        r.draws = crate::kit::tape::draws();
+        (r, log)
+    })
 }
 
 fn run_case_inner(mode: &str, seed: u64, keep_log: bool) -> (CaseResult, Vec<String>) {
